@@ -1284,10 +1284,14 @@ impl<'a> Runner<'a> {
                         let want = spec_urgency(&self.subj.config, snap_before);
                         let want_after = spec_urgency(&self.subj.config, snap_before.map(|(a, s)| (a, s.saturating_add(1))));
                         self.cov.hit(format!("urgency:{:?}:{}", urg, if snap_before.is_some() { "snap" } else { "nosnap" }));
-                        if *urg != want {
+                        // a snapshot stamped ahead of the clock: the age is compared in whole days, and
+                        // the harness reads whole seconds, so one day of slack on the negative side
+                        let neg = snap_before.filter(|(a, _)| *a < 0);
+                        let want_neg = neg.map(|(a, s)| (spec_urgency(&self.subj.config, Some((a + 1, s))), spec_urgency(&self.subj.config, Some((a + 1, s.saturating_add(1))))));
+                        if *urg != want && want_neg.map(|w| *urg != w.0).unwrap_or(true) {
                             self.conv_before_ok = false;
                         }
-                        if *urg != want_after {
+                        if *urg != want_after && want_neg.map(|w| *urg != w.1).unwrap_or(true) {
                             self.conv_after_ok = false;
                         }
                         if !self.conv_before_ok && !self.conv_after_ok {
